@@ -122,10 +122,16 @@ func Eq(a, b *T) *T {
 	if a.W != b.W {
 		panic(fmt.Sprintf("Eq width %d %d", a.W, b.W))
 	}
+	// (ite c x y) == const : distribute over constant-leaf ite trees (table lookups)
+	if a.IsC && constLeafIte(b, 300) {
+		return mapIteLeavesBool(b, func(c *T) *T { return BoolC(c.C == a.C) })
+	}
+	if b.IsC && constLeafIte(a, 300) {
+		return mapIteLeavesBool(a, func(c *T) *T { return BoolC(c.C == b.C) })
+	}
 	if a.id > b.id {
 		a, b = b, a
 	}
-	// (ite c x y) == const folding
 	return intern(&T{Op: "=", Args: []*T{a, b}})
 }
 func Ite(c, a, b *T) *T {
@@ -219,6 +225,12 @@ func Bin(op string, a, b *T) *T {
 		if b.IsC && a.Op == "bvadd" && a.Args[1].IsC {
 			return Bin("bvadd", a.Args[0], BV(w, a.Args[1].C+b.C))
 		}
+		if b.IsC && constLeafIte(a, 300) {
+			return mapIteLeaves(a, func(c *T) *T { return BV(w, c.C+b.C) })
+		}
+		if a.IsC && constLeafIte(b, 300) {
+			return mapIteLeaves(b, func(c *T) *T { return BV(w, c.C+a.C) })
+		}
 		if a.IsC {
 			a, b = b, a
 		}
@@ -301,6 +313,12 @@ func Cmp(op string, a, b *T) *T {
 	}
 	if a == b {
 		return BoolC(op == "bvule" || op == "bvsle")
+	}
+	if a.IsC && constLeafIte(b, 300) {
+		return mapIteLeavesBool(b, func(c *T) *T { return Cmp(op, a, c) })
+	}
+	if b.IsC && constLeafIte(a, 300) {
+		return mapIteLeavesBool(a, func(c *T) *T { return Cmp(op, c, b) })
 	}
 	return intern(&T{Op: op, Args: []*T{a, b}})
 }
@@ -413,6 +431,34 @@ func constLeafIte(t *T, n int) bool {
 		return false
 	}
 	return rec(t) && cnt > 0
+}
+
+func mapIteLeavesBool(t *T, f func(c *T) *T) *T {
+	if t.IsC {
+		return f(t)
+	}
+	if t.Op == "zext" {
+		return mapIteLeavesBool(pushZext(t.W, t.Args[0]), f)
+	}
+	a, b := mapIteLeavesBool(t.Args[1], f), mapIteLeavesBool(t.Args[2], f)
+	c := t.Args[0]
+	switch {
+	case a == b:
+		return a
+	case a.True() && b.False():
+		return c
+	case a.False() && b.True():
+		return Not(c)
+	case a.True():
+		return Or(c, b)
+	case a.False():
+		return And(Not(c), b)
+	case b.True():
+		return Or(Not(c), a)
+	case b.False():
+		return And(c, a)
+	}
+	return Ite(c, a, b)
 }
 
 func mapIteLeaves(t *T, f func(c *T) *T) *T {
